@@ -1559,6 +1559,13 @@ theorem C02_shell_refines_exact_by_id (s : Sys.Sys F) (evs : List Sys.Ev) (hinv 
   exact ⟨pre, post, k0, hist, h1, h2, h3, h4, h5, h6, h7,
     fun m hm hc => eq_of_mem_of_connId (Inv_run_reload s hI evs hf).nodup hm hl' hc⟩
 
+/-- **"The link with conn id `c`" is unambiguous at every moment of the run**: under the hypotheses of
+`C02_shell_refines_by_id` the conn ids are pairwise distinct in the state after EVERY prefix of the run, so the link
+`IdHist` / `IdHistX` pick at each event (any index `j` whose link carries `c`) is the only one. -/
+theorem C02_ids_distinct_along_run (s : Sys.Sys F) (evs : List Sys.Ev) (hI : Sys.Inv s) (hf : FreshRun s evs)
+    (k : Nat) : (Sys.ids (Sys.run s (evs.take k)).1.links).Nodup :=
+  ids_nodup_along s hI evs hf k
+
 /-- **A removed link's history ends.**  Conn ids pairwise distinct, the drawn ids new: a link whose address is no
 longer desired is not a link of the state after the reload and NO link there carries its conn id — its set is gone
 with it; every link of the post-state that was a link before (its address is desired) has its key list, its counter,
@@ -1625,10 +1632,47 @@ example :
     2 ∈ Sys.ids (Sys.run exS (exRunR.take 1)).1.links ∧ 2 ∉ Sys.ids (Sys.run exS (exRunR.take 2)).1.links :=
   ⟨by decide +kernel, by decide, by decide, by decide +kernel, by decide +kernel, by decide +kernel, by decide +kernel⟩
 
+/-- An explicit `IdHistX` derivation ACROSS a reload, conn id 1 from `exS` over `[flush, exReload, flush]`: the first
+flush contributes `flushBlock` at index 0 of `exS` (the send of 41), the reload contributes nothing and retains the
+link (address 1 is desired), the second flush contributes `flushBlock` at the index the link has after the reload
+(the queue is empty by then: no operation). -/
+example :
+    IdHistX exS [.flush 5000, exReload, .flush 5001] 1
+      (flushBlock exS 0 ++ (flushBlock (Sys.run exS [.flush 5000, exReload]).1 0 ++ [])) ∧
+    flushBlock exS 0 ++ (flushBlock (Sys.run exS [.flush 5000, exReload]).1 0 ++ []) = [.send 41] := by
+  -- the link at index 0 of a concrete state, with its conn id and address (a closed, decidable statement)
+  have head : ∀ {ls : List (FLink Int)} {c a : Nat}, ls[0]?.map (fun l => (l.core.connId, l.addr)) = some (c, a) →
+      ∃ l, ls[0]? = some l ∧ l ∈ ls ∧ l.core.connId = c ∧ l.addr = a := by
+    intro ls c a h
+    cases hl : ls[0]? with
+    | none => rw [hl] at h; cases h
+    | some l =>
+      rw [hl] at h
+      simp only [Option.map_some, Option.some.injEq, Prod.mk.injEq] at h
+      exact ⟨l, rfl, List.mem_of_getElem? hl, h.1, h.2⟩
+  obtain ⟨l0, g0, -, c0, -⟩ := head (ls := exS.links) (c := 1) (a := 1) (by decide +kernel)
+  obtain ⟨l1, -, m1, c1, a1⟩ := head (ls := (Sys.step exS (.flush 5000)).1.links) (c := 1) (a := 1) (by decide +kernel)
+  obtain ⟨l2, g2, -, c2, -⟩ :=
+    head (ls := (Sys.step (Sys.step exS (.flush 5000)).1 exReload).1.links) (c := 1) (a := 1) (by decide +kernel)
+  obtain ⟨l3, -, m3, c3, -⟩ :=
+    head (ls := (Sys.step (Sys.step (Sys.step exS (.flush 5000)).1 exReload).1 (.flush 5001)).1.links) (c := 1) (a := 1)
+      (by decide +kernel)
+  refine ⟨?_, by decide +kernel⟩
+  refine .flush g0 c0 ?_
+  refine IdHistX.reload (now := 9) (addrs := [3, 1, 4, 4, 5, 6]) (outs := [some 7, none, some 8]) m1 c1
+    (by rw [a1]; decide) ?_
+  refine .flush g2 c2 ?_
+  exact .nil m3 c3
+
+/-- An explicit `Origin.created`: conn id 7 names no link after `[flush]` and names one after `[flush, exReload]`. -/
+example : Origin exS 7 ([.flush 5000] ++ [.reload 9 [3, 1, 4, 4, 5, 6] [some 7, none, some 8]]) [] :=
+  .created (by decide +kernel) (by decide +kernel)
+
 /-- Instances of the theorems on `exS` / `exRunR`. -/
 example := C02_shell_refines_by_id exS exRunR exS_shellInv exS_inv (by decide +kernel)
 example := C02_shell_refines_exact_by_id exS exRunR exS_shellInv exS_inv (by decide +kernel)
 example := C02_inflight_eq_card_run_reload exS exRunR exS_shellInv
+example (k : Nat) := C02_ids_distinct_along_run exS exRunR exS_inv (by decide +kernel) k
 example := C02_shell_removed_ends exS 9 [3, 1, 4, 4, 5, 6] [some 7, none, some 8] exS_inv (by decide)
 
 end examplesReload
